@@ -250,7 +250,8 @@ private theorem weak_find_some (o : Nat → Nat → Bool) (h : Nat → Nat → N
 
 /-- **align_weak_points terminates**: for every oracle and every `point_ix`, `last_ix`, the `'outer` loop exits within
 `last_ix + 2` executions of its body (each of which increments `point_ix`), and neither nested loop runs out of its
-fuel `last_ix + 2`; `point_ix` never decreases. -/
+fuel `last_ix + 2`; `point_ix` never decreases; and the checked `point_ix - 1` of the `iup_interpolate` call never traps
+(`iterG` would return `none`). -/
 theorem autohint_align_weak_points_terminates (o : Nat → Nat → Bool) (h : Nat → Nat → Nat) (s : St) :
     ∃ s', iterG (weakStep o h) (s.segFirst + 2) s = some (false, s') ∧ s'.segFirst = s.segFirst ∧ s.last ≤ s'.last := by
   obtain ⟨e, s', h1, h2, h3⟩ := iterG_measure (weakStep o h) (fun _ => True) (fun s => s.segFirst + 1 - s.last)
@@ -271,7 +272,8 @@ theorem autohint_align_weak_points_terminates (o : Nat → Nat → Bool) (h : Na
       all_goals first
         | (left; exact ⟨_, rfl, by dsimp only; omega, trivial⟩)
         | (right; right; refine ⟨_, rfl, trivial, ?_⟩; dsimp only; simp at h2b; omega)
-        | fail "align_weak_points, 'outer loop: a path continues without `point_ix` having grown and `point_ix <= last_ix`")
+        | (exfalso; omega)  -- the `.trap` path of `point_ix - 1`: `point_ix` has been incremented before
+        | fail "align_weak_points, 'outer loop: a path continues without `point_ix` having grown and `point_ix <= last_ix`, or the checked `point_ix - 1` can underflow")
     (s.segFirst + 2) s trivial (by first | omega | (dsimp only; omega))
   cases e
   · exact ⟨s', h1, h2⟩
@@ -304,6 +306,38 @@ theorem autohint_segment_start_search_terminates_from_entry (o : Nat → Nat →
     ∃ s', iter (segStartStep o h) (n + 1) ⟨0, 0, n, tick⟩ = some s' :=
   let ⟨s', h1, _⟩ := autohint_segment_start_search_terminates o h ⟨0, 0, n, tick⟩ hn hn
   ⟨s', h1⟩
+
+/-! ### `Contour::next` / `Contour::prev` (autohint/outline.rs; bodies compared textually on every run)
+
+A `Contour` has `first_ix ≤ last_ix` (`UnscaledOutlineSink::push` creates it with `first_ix = last_ix` and only ever
+increments `last_ix`). -/
+
+/-- `Contour::next` of a point of the contour is a point of the contour, and in offsets from `first_ix` it is the
+`cnext` the loop skeletons use -/
+theorem contour_next_in_contour (first last i : Nat) (hfl : first ≤ last) (h1 : first ≤ i) (h2 : i ≤ last) :
+    first ≤ contourNext first last i ∧ contourNext first last i ≤ last ∧
+    contourNext first last i - first = cnext (last - first + 1) (i - first) := by
+  unfold contourNext cnext
+  split <;> split <;> omega
+
+/-- `Contour::prev` of a point of the contour never underflows, is a point of the contour, and in offsets from
+`first_ix` it is `cprev` -/
+theorem contour_prev_in_contour (first last i : Nat) (hfl : first ≤ last) (h1 : first ≤ i) (h2 : i ≤ last) :
+    ∃ j, contourPrev first last i = some j ∧ first ≤ j ∧ j ≤ last ∧
+      j - first = cprev (last - first + 1) (i - first) := by
+  unfold contourPrev cprev
+  by_cases h : i ≤ first
+  · exact ⟨last, by simp [h], hfl, Nat.le_refl _, by split <;> omega⟩
+  · exact ⟨i - 1, by simp [h]; omega, by omega, by omega, by split <;> omega⟩
+
+/-- entry of `align_weak_points`: `points` is the slice `contour.range() = first_ix .. last_ix + 1`, which is not empty, so
+`let last_ix = points.len() - 1` does not underflow -/
+theorem autohint_align_weak_points_entry_no_underflow (first last : Nat) (hfl : first ≤ last) :
+    ¬ (last + 1 - first < 1) := by omega
+
+/-- the check is not vacuous: outside a contour that starts at 0, `prev` of … nothing underflows either, but with the
+guard removed it would: `0 - 1` -/
+example : contourPrev 0 3 0 = some 3 ∧ contourPrev 2 5 2 = some 5 ∧ contourPrev 2 5 4 = some 3 := by decide
 
 /-! ### Non-vacuity -/
 
